@@ -21,7 +21,9 @@ THEOREMS = ["Names.resolve_direct_import", "Names.resolve_module_alias", "Names.
             # inherited members (layer PdProps/C04Inh.lean: expand_soundI, class_bind_same, mro_member_class, pyDenotes_jI):
             # soundness without pyOwn for the sub-class classImportsUnique
             "Imports.resolve_sound_inherited", "Imports.resolve_order_independent_inherited",
-            # re-exports: the statement is not proved; bounded kernel-checked search + `imports rsound` stream
+            # re-exports (layers PdProps/C04ReexpA..G): soundness with MOVED objects, order independence, clean run
+            "Imports.resolve_sound_reexport", "Imports.resolve_order_independent_reexport", "Imports.wfr_run_clean",
+            "Imports.resolve_sound_reexport_of", "Imports.resolve_sound_reexport_partial_order_counterexample",
             "Imports.reexport_sound_bounded", "Imports.ResolveSoundReexport.order_independent",
             # lemmas of PdProps/C04.lean they rest on (the layers below are PdProps/C04Base.lean and C04Clean.lean)
             "Imports.alias_of_stmt", "Imports.def_registered", "Imports.walk_path"]
@@ -47,16 +49,19 @@ PARTIAL = {"Imports.resolve_sound": "soundness is a theorem (Imports.resolve_sou
                                     "topological index, imports inside the project, names of modules and definitions globally unique, "
                                     "each name bound once per scope - a star import counted as binding every public name of its target "
                                     "and its __all__ -, root module names reserved, no definition name containing a space, base "
-                                    "expressions are names) PLUS (1) the restriction noReexport (no __all__ re-export moves). With moves the statement "
-                                    "is `a = finalLoc b` (Imports.ResolveSoundReexport for WFr = WF with noReexport replaced by the "
-                                    "decidable reexportShape of C07's property: one re-exporter per object, direct import from the "
-                                    "plain defining module, top-level classes/functions, no import in class bodies); it is NOT proved "
-                                    "(missing: the machine invariant PdInv with relocated paths through `doMove`, see notes/C04.md). It "
-                                    "is checked (a) in the kernel on the 28 projects of rxFamily under every processing order "
-                                    "(Imports.reexport_sound_bounded, 7704 cases), (b) by the stream reexport-sound-search on the models "
-                                    "(every dotted name of <= 3 components, every scope, several orders; ShapeGen / C07 scenarios / BindGen) "
-                                    "and (c) on the real pydoctor against the real CPython for the ShapeGen projects under several orders "
-                                    "(oracle signatures unsound:reexport-shape, order-dependent:reexport-shape); "
+                                    "expressions are names) PLUS (1) the restriction noReexport (no __all__ re-export moves) - OR, with moves, WFr: the "
+                                    "statement then is `a = finalLoc b` (Python's definition-site identity relocated to where the "
+                                    "re-export documents the object) and it is PROVED (Imports.resolve_sound_reexport, with "
+                                    "resolve_order_independent_reexport and wfr_run_clean: no hypothesis on the run, `reparent` raises "
+                                    "nothing) for every processing order that covers every module "
+                                    "(resolve_sound_reexport_partial_order_counterexample: without coverage it is false). WFr = WF with "
+                                    "noReexport replaced by the decidable reexportShape of C07's property (one __all__ per module and no "
+                                    "star import next to it; the re-exporter imports the object directly from the plain module that defines "
+                                    "it - a top-level class/function the definer does not list itself; at most one re-exporter per object; "
+                                    "new names not of the form `name i`; no import in class bodies) plus pkgFromOk (the implicit submodule "
+                                    "lookup of `from <package> import n` is an import edge of lower rank, or `n` is bound in the package by "
+                                    "nothing that could be a module) and modNamesOk. The kernel-checked search (reexport_sound_bounded) and the "
+                                    "streams reexport-sound-search / ShapeGen real-vs-CPython stay as the statement-level tie; "
                                     "and (2) EITHER for names whose class steps stay in the classes' own namespaces (PyImp.pyOwn; "
                                     "Imports.resolve_sound_partial) OR - INHERITED members included, no pyOwn - for the decidable "
                                     "sub-class classImportsUnique of WF (Imports.resolve_sound_inherited: a name bound by an import inside "
